@@ -187,6 +187,8 @@ func Atlas() []*spec.Program {
 			F("foo", "string", oneof(1)), F("bar_baz", "int64", oneof(1)), F("EnumBranch", "enum:Mode", oneof(1)),
 			F("EmptyMessageBranch", "msg:EmptyBranch", oneof(2)), F("BoolBranch", "bool", oneof(2)), F("BytesBranch", "bytes", oneof(2)),
 			F("FloatBranch", "float", oneof(2)), F("DoubleBranch", "double", oneof(2)), F("Uint64Branch", "uint64", oneof(2)),
+			// a plain field whose name sorts between a branch of Third (BoolBranch) and a branch of OneOf (Branch1)
+			F("Bpm", "int32"),
 			F("After", "int32"))
 		out = append(out, prog("a_oneof", append([]string{"C07"}, convProps...), baseConfig("OneOfs", "Wrap"), en, b1, b2, em, oo, wrap("Wrap", "OneOfs")))
 	}
@@ -310,11 +312,14 @@ func Atlas() []*spec.Program {
 			F("CustStr", "string", custom("CustomStr"), nn()),
 			F("ByConfig", "string"),
 			F("ByConfigList", "int64", rep()),
+			// cast-typed fields that the configuration declares custom: the hooks decide, not the cast
+			F("CastCfg", "string", cast("CastString")),
+			F("CastCfgList", "int64", rep(), cast("CastInt64")),
 			F("Plain", "string"))
 		cfg := baseConfig("Customs")
 		// near-miss keys: only an exact key is a suffix entry / a custom type entry
-		cfg.Suffixes = map[string]string{"CustomBool": "BoolSpecial", "IntList": "DecoyA", "pkg.IntList": "DecoyB", "custombool": "DecoyCase", "Custom": "DecoyPrefix"}
-		cfg.CustomTypes = map[string]string{"Customs.ByConfig": "StringCustom", "Customs.ByConfigList": "some/pkg.IntList", "ByConfig": "DecoyType", "Customs.Plain.": "DecoyType", "customs.plain": "DecoyType"}
+		cfg.Suffixes = map[string]string{"CustomBool": "BoolSpecial", "CastLabel": "Lbl", "IntList": "DecoyA", "pkg.IntList": "DecoyB", "custombool": "DecoyCase", "Custom": "DecoyPrefix"}
+		cfg.CustomTypes = map[string]string{"Customs.ByConfig": "StringCustom", "Customs.ByConfigList": "some/pkg.IntList", "Customs.CastCfg": "CastLabel", "Customs.CastCfgList": "CastInts", "ByConfig": "DecoyType", "Customs.Plain.": "DecoyType", "customs.plain": "DecoyType"}
 		cfg.ComputedFields = []string{"Customs.CustP", "Customs.ByConfig"}
 		cfg.RequiredFields = []string{"Customs.CustStr"}
 		cfg.SensitiveFields = []string{"Customs.CustList", "Customs.ByConfig"}
